@@ -91,6 +91,10 @@ var Corpus = []CorpusEntry{
 		return one(SSet("k1", VStr("9223372036854775807")), SIncr("k1", 1), SGet("k1"), SIncr("k1", -1), SGet("k1"),
 			HSet("k2", "f", VStr("-9223372036854775808")), HIncr("k2", "f", -1), HGet("k2", "f"), HIncr("k2", "f", 1))
 	}},
+	{Name: "empty_key_name", Props: []string{"C17", "C06"}, Build: func(b int64) []*Step {
+		return one(SSet("", VStr("v")), SGet(""), KGet(""), KExists(""), KRename("", "k2"), SGet("k2"), KRenameNX("k2", ""), KGet(""),
+			HSet("", "", VStr("")), LPushBack("k3", VStr("")), KKeys(""), KKeys("*"))
+	}},
 	{Name: "key_len_counts_expired_keys", Props: []string{"C06", "C10"}, Known: "kf_keylen_counts_expired", Build: func(b int64) []*Step {
 		return one(SSet("k1", VStr("v")), SSet("k2", VStr("w")), KExpireAt("k1", b-2*hour), KLen(), KCount("k1", "k2"))
 	}},
